@@ -24,8 +24,35 @@ def prepare(seed, tier):
     _seed[0] = seed
 
 
-def plan(tier):
+def n_hist(tier):
     return 400 if tier == "quick" else 20000
+
+
+def plan(tier):
+    # histories + emitted-code view cases (see emitted_views)
+    return n_hist(tier) + (300 if tier == "quick" else 6000)
+
+
+VIEW_OPS = {"view", "slice", "index", "rtindex", "concat"}
+
+
+def emitted_views(seed, idx, tier, j):
+    """the last sentence of the statement at the level of EMITTED code: expressions of the C02 generator that contain views,
+    slices or indices are compiled (operands as ports, through named slice-of-slice views and their casts, through a Signal
+    constructed inside the process) and simulated; a wrong value there is a view that does not name the storage it aliases.
+    Expressions without a view operation are not this property's subject and only counted."""
+    from vf.props import c02
+
+    r = c02.run_one(seed, j, tier)
+    ops = set((r.get("info") or {}).get("ops") or [])
+    res = {"idx": idx, "shape": "emitted:" + str(r.get("shape")), "stats": {}, "classes": 0, "objects": 0, "nops": 0, "kinds": ["emitted-view-case"] if ops & VIEW_OPS else ["emitted-no-view"], "emitted": r["status"]}
+    if r["status"] == "violation" and ops & VIEW_OPS and r.get("vclass") == "wrong-value":
+        res.update(status="violation", vclass="view-in-emitted-code-reads-other-storage", detail=r["detail"], payload={"emitted": True, "seed": seed, "idx": idx, "tier": tier, "j": j})
+    else:
+        res["status"] = "ok" if r["status"] in ("ok", "violation") else "skipped"
+        if res["status"] == "skipped":
+            res["reason"] = "emitted-code case not explored: " + str(r.get("reason") or r["status"])[:80]
+    return res
 
 
 def gen_width(rs):
@@ -187,6 +214,8 @@ def execute(ops, hs, flavour):
 
 
 def run_one(seed, idx, tier):
+    if idx >= n_hist(tier):
+        return emitted_views(seed, idx, tier, idx - n_hist(tier))
     ops = gen_history(seed, idx, tier)
     hs = hash_seed_for(seed, idx)
     flavour = "core" if idx % 3 else "std"
@@ -210,6 +239,9 @@ def run_one(seed, idx, tier):
 
 
 def replay(payload):
+    if payload.get("emitted"):
+        r = emitted_views(payload["seed"], payload["idx"], payload["tier"], payload["j"])
+        return (r["vclass"], r["detail"]) if r["status"] == "violation" else ("ok", {})
     out = execute(payload["ops"], payload["hashseed"], payload.get("flavour", "std"))
     if out["violations"]:
         return out["violations"][0]["kind"], out["violations"][0]
@@ -269,6 +301,8 @@ ASSUMPTIONS = [
 
 
 def evidence(results, tier):
+    emitted = [r for r in results if "emitted" in r]
+    results = [r for r in results if "emitted" not in r]
     ok = [r for r in results if r["status"] in ("ok", "violation")]
     agg = {}
     for r in ok:
@@ -285,8 +319,9 @@ def evidence(results, tier):
             sample = {"run": r["idx"], "hashseed": hash_seed_for(_seed[0], r["idx"]), "ops": gen_history(_seed[0], r["idx"], tier)[:25]}
             break
     return {
-        "evaluations": len(results),
+        "evaluations": len(results) + len(emitted),
         "distinct_nontrivial": len(nontriv),
+        "emitted_code_view_cases": {"compiled_and_simulated_with_view_operations": len([r for r in emitted if r["kinds"] == ["emitted-view-case"] and r["status"] in ("ok", "violation")]), "without_view_operations(not this property)": len([r for r in emitted if r["kinds"] == ["emitted-no-view"]]), "not_explored": len([r for r in emitted if r["status"] == "skipped"])},
         "rule": "one evaluation = one seeded history of type requests / failing requests / object and view creation / writes through views executed in a fork of a "
         "pristine interpreter (flavour core = only `import cohdl`, std = also cohdl.std) under one of 4 hash seeds, model compared after every operation; "
         "distinct = distinct request sequences; non-trivial = >= 6 classes created, >= 1 failing request, >= 2 objects/views",
